@@ -46,6 +46,7 @@ STUBS = {
     "": None,
     "recv-handlers": lambda callee: callee.get("name", "").startswith("process_recv_v"),
     "ids": None,
+    "allrc": None,
 }
 
 
@@ -400,7 +401,7 @@ def wire_value(F, adt, variant):
     return F.discr_map(adt)[variant]
 
 
-def expand_all(interned, t, depth=12):
+def expand_all(interned, t, depth=40):
     """Substitute interned sub-terms ('#', i) back (bounded depth) for inspection."""
     if not isinstance(t, tuple) or depth <= 0:
         return t
